@@ -159,6 +159,13 @@ def install(project, evolutions=None, migrations=None, extra_installed=()):
             for k, v in (evo.get('top') or {}).items():
                 setattr(em, k, v)
             pkg.evolutions = em
+            for fname, text in (evo.get('sql_files') or {}).items():
+                with open(os.path.join(epath, fname), 'w') as fp:
+                    fp.write(text)
+            for stale in os.listdir(epath):
+                if stale.endswith('.sql') and \
+                        stale not in (evo.get('sql_files') or {}):
+                    os.remove(os.path.join(epath, stale))
             for elabel, body in evo['modules'].items():
                 sm = _mod('%s.evolutions.%s' % (pkgname, elabel), epath,
                           False)
